@@ -21,14 +21,55 @@ FAMILIES_WITH_THEOREM = [
     "DSF", "TrueAudio", "WavPack (first block, known total)", "Monkey's Audio (>= 3.98 header)", "OptimFROG",
     "Musepack SV7", "Musepack SV8 (SH/RG packets, varint sizes)", "Ogg Vorbis id header", "Ogg Opus OpusHead",
     "Ogg Speex header", "Ogg Theora id header", "Ogg FLAC mapping header",
-    "AC-3 syncframe (bsid <= 10): PARTIAL -- channel modes 2/0, 3/0, 2/1, 2/2 proved; 1+1, 1/0, 3/1, 3/2 REFUTED "
-    "(C05_ac3_lfe_position_refuted: lfeon read at a fixed bit position)",
-    "E-AC-3 syncframe (finite sub-domain: all stream types, rate codes, block codes, channel modes, six frame sizes)"]
+    "AC-3 syncframe (bsid <= 10, all eight channel modes; finite domain)",
+    "E-AC-3 syncframe (finite sub-domain: all stream types, rate codes, block codes, channel modes, six frame sizes)",
+    "AAC ADIF header + program config element (C05_adif: ALL field values -- copyright id, 23-bit bitrate, 20-bit buffer fullness, every "
+    "sampling frequency index, 0..15 front/side/back elements single or pair, LFE / associated data / coupling elements, mixdown options, "
+    "comment bytes, 1..16 programs -- for variable-rate headers and one-program constant-rate headers; by arithmetic over a generic "
+    "BitReader-vs-packed-fields lemma library, not enumeration); C05_adif_cbr_multi_pce_refuted: constant rate with several programs"]
 FAMILIES_WITHOUT_THEOREM = [
-    "other LAME version strings than LAME3.99r (modelled: LAMEHeader.parse_version; correspondence only)",
-    "Musepack SV4-SV6 (modelled, correspondence only)", "Monkey's Audio < 3.98 (modelled, correspondence only)",
-    "WavPack block walk for unknown totals (modelled, correspondence only)",
-    "DSDIFF", "TAK", "MP4 mdhd/stsd/esds", "ASF", "AAC ADTS/ADIF", "SMF"]
+    "other LAME version strings than LAME3.99r (modelled: LAMEHeader.parse_version; correspondence + oracle on eight strings)",
+    "Musepack SV4-SV6 (modelled; correspondence + oracle on harness-written headers)",
+    "Monkey's Audio < 3.98 (modelled; correspondence + oracle on harness-written headers)",
+    "WavPack block walk for unknown totals / non-zero first block index (modelled; correspondence + oracle on multi-block files)",
+    "layouts around the modelled headers: ID3v2 in front of MPEG / FLAC / Musepack, leading bytes and 2..5 MPEG frames, FLAC with further "
+    "metadata blocks, WAVE without data chunk, a foreign logical stream around each Ogg codec stream (harness-written; oracle + correspondence)",
+    "AAC ADTS, TAK, DSDIFF, MP4 mdhd/stsd/esds/alac/dac3 (AudioSpecificConfig incl. SBR/PS signalling, program config element), "
+    "ASF file/stream properties + codec list: DIRECT ORACLE ONLY (harness/c05_extra.py: independent writers, no model, no theorem)",
+    "SMF (not covered)"]
+
+# which header-parser branches a builder parameter drives (evidence: coverage.branch_audit); "-" = not driven by any builder
+BRANCH_AUDIT = [
+    ("mp3 MPEGFrame/MPEGInfo", "version x layer x protection x bitrate idx x rate idx x padding x mode (exhaustive), reserved values, private/tail bits; "
+     "ID3v2 (stacked) skip, leading bytes, 2..5 frames (sketchy flag); Xing/Info flags, LAME ext, 9 LAME version strings, VBRI",
+     "resync after a false sync / max_syncs, `offset` argument, encoder_settings / bitrate_mode guess, track/album gain of the LAME header"),
+    ("aac ADIF", "copyright id, original/home, bitstream type, bitrate, fullness, every PCE field and count, 1..16 programs, ID3v2 prefix, truncation, "
+     "seek past the end", "constant rate with > 1 program is judged by correspondence only (reported defect)"),
+    ("aac ADTS (oracle only)", "ID, profile, sfi 0..15, private, channel configuration 0..7, original/home, protection_absent x raw-block count (crc overhead), "
+     "13-bit frame length, fullness, 3..150 frames, leading bytes, ID3v2", "differing fixed headers between frames, resync (max_resync_read), < 3 frames, "
+     "length only within (2 * leading + 2) / stream size (documented guess)"),
+    ("ac3 / eac3", "fscod, frmsizecod 0..37, bsid 0..10 / 11..16, bsmod, acmod x cmixlev/surmixlev/dsurmod, lfeon, dialnorm; strmtyp, frmsiz, fscod2, numblkscod",
+     "optional bsi items (compre, langcode, audprodie, timecod, addbsi), E-AC-3 mixmdate/infomdate blocks: always written absent"),
+    ("flac StreamInfo", "all nine fields to their widths, rate 0, short block; ID3v2 prefix, further metadata blocks", "-"),
+    ("aiff / wave", "COMM fields, 80-bit rates incl. exponent sweep, AIFC extension; fmt fields, extension sizes, data size, no data chunk", "RF64/ds64 (not in mutagen)"),
+    ("dsf", "all fmt fields", "format version / id other than 1 / 0 (rejected), metadata pointer"),
+    ("dsdiff (oracle only)", "FS, CHNL, CMPR DSD/DST, DSD size, FRTE count/rate, DST size, sub-chunk order, extra chunks", "negative rate check (unreachable), truncated sub-chunks"),
+    ("tta / optimfrog", "all header fields, ID3v2 prefix; data size 12 / >= 15, sample types 0..255", "-"),
+    ("wavpack", "version, total, block samples, flags (bytes, mono, rate idx 0..15, DSD), block walk (unknown total, index != 0, 0..3 further blocks)", "-"),
+    ("monkeysaudio", ">= 3.98 descriptor fields; old header: versions around 3800/3900/3950, compression levels, WAVEfmt bits", "3.80-3.89 with level 4 / 4000: "
+     "length not judged (reported defect)"),
+    ("musepack", "SV7 fields + gains, SV8 SH/RG varints, rate idx 0..7, malformed packet streams, SV4-6, ID3v2 prefix, extra packets, RG before SH", "-"),
+    ("tak (oracle only)", "every STREAMINFO field, extension / speaker assignment up to 12 channels, encoder info, blocks before the stream info, unused bit",
+     "speaker assignment for 13..16 channels (block size refused by the size check, noted)"),
+    ("ogg vorbis/opus/speex/theora/flac", "every id header field, granule lattice, bitrate rule orderings, rejected versions / markers, truncated packets, foreign "
+     "logical stream before/after", "id header on a non-BOS page, header packets spanning pages (C03/Fam_ogg)"),
+    ("mp4 (oracle only)", "mdhd v0/v1 timescale + duration lattices, entry channels/size/rate, esds flags + 1..4 byte lengths (> 127 bytes), objectTypeIndication, "
+     "AudioSpecificConfig: object types incl. escape, sfi 0..15 + explicit, channel configuration 1..15, PCE, explicit + backward compatible SBR/PS, GASpecificConfig "
+     "flags; alac cookie; dac3 acmod x lfeon x 32 bit-rate codes; other codecs; no entry; video track first", "mdhd version >= 2, stsd version != 0, 64-bit atoms, "
+     "extensionFlag3, epConfig 2/3"),
+    ("asf (oracle only)", "play duration, preroll (incl. > duration), channels, rate, byte rate, 13 codec ids + unregistered, codec list entries/order, strings",
+     "header extension objects, several audio streams"),
+]
 
 TRUSTED = [
     "binary64: the harness turns the model's exact rationals (numerator, denominator) into the float the implementation's "
@@ -39,25 +80,38 @@ TRUSTED = [
     "containers (RIFF/FORM chunk walk, Ogg pages, FLAC metadata block chain, repetition of MPEG frames) are produced by harness "
     "code and parsed by the real loaders; the models start at the header/chunk/packet level",
     "Gen_tables.v: the tables are read from the live classes by importing mutagen from the repo path in a subprocess",
+    "ADIF: the extracted builder is compared byte for byte with an independent Python bit writer on every case",
+    "oracle-only families (ADTS, TAK, DSDIFF, MP4, ASF): the reference writers and the expected values in harness/c05_extra.py are "
+    "hand-written from the format specifications (ISO/IEC 13818-7, 14496-1/-3/-12, ETSI TS 102 366, ASF 1.2, DSDIFF 1.5, the TAK "
+    "stream info layout as read by ffmpeg) and are NOT machine checked; implicit-SBR rule: a sampling frequency <= 24 kHz without "
+    "signalling counts as unknown (the AudioSampleEntry value is reported)",
+    "NOT covered: ADIF constant-rate headers with more than one program (length / acceptance judged by correspondence only, reported); "
+    "Monkey's Audio 3.80-3.89 with compression level 4 or 4000 (length not judged, reported); ADTS duration only within the documented "
+    "guess tolerance; TAK stream info blocks above 20 data bytes; the branches listed as not driven in coverage.branch_audit",
 ]
 MANIFEST = {
     "text": "full per modelled decoder; long tail staged. For each Stage-1 format a spec-side builder and a code-side decoder "
             "(mirroring the *Info constructor, tables regenerated from the live classes) with a machine-checked theorem "
             "decode (build p) = Ok (expected p) for all field values up to the bit widths (MPEG: exhaustive finite product by "
-            "vm_compute; others by div/mod arithmetic), generated tables proved equal to the specification tables, invalid "
-            "headers rejected; decoders tied to the implementation by correspondence on built files and on all samples; "
-            "direct oracle from the parameters on the real loaders.",
+            "vm_compute; others by div/mod arithmetic; ADIF: all field values through a BitReader lemma library), generated tables "
+            "proved equal to the specification tables, invalid headers rejected; decoders tied to the implementation by correspondence "
+            "on built files and on all samples; direct oracle from the parameters on the real loaders, also for the formats without "
+            "a model (ADTS, TAK, DSDIFF, MP4, ASF).",
     "note": "Formats with theorem: " + "; ".join(FAMILIES_WITH_THEOREM) + ". Without theorem (staged): " +
             "; ".join(FAMILIES_WITHOUT_THEOREM) + ". Durations are exact rationals in the model; the float the implementation "
             "reports is compared with the same IEEE operations applied to the rational. Size-derived estimates (CBR MPEG length, "
-            "FLAC/Musepack bitrate) are compared between model-mirroring harness code and implementation only.",
-    "technique": "Coq proofs (vm_compute over the finite MPEG domain; lia with Euclidean division for bit fields) + "
-                 "table regeneration + correspondence via extracted OCaml model + direct parameter oracle",
+            "FLAC/Musepack bitrate) are compared between model-mirroring harness code and implementation only. Header branches driven / "
+            "not driven by a builder parameter: coverage.branch_audit. Not covered: " + TRUSTED[-1],
+    "technique": "Coq proofs (vm_compute over the finite MPEG domain; lia with Euclidean division for bit fields; arithmetic BitReader "
+                 "lemmas for ADIF) + table regeneration + correspondence via extracted OCaml model + direct parameter oracle",
     "design_ref": "DESIGN.md section 5, C05 and Appendix C",
 }
 RULE = ("MPEG: every (version, layer, protection, bitrate index, rate index, padding, mode) combination, 4 consecutive frames; "
         "other formats: per field the lattice {0, 1, 2, max-1, max, 2^k, 2^k +- 1} crossed sparsely (each lattice value of each field "
-        "with random other fields) plus uniformly random fields; invalid field values (reserved indices, zero rates) as a malformed "
+        "with random other fields) plus uniformly random fields; ADIF: copyright id x bitstream type x 13 sampling frequency indices x 8 "
+        "channel layouts x one / three programs, every value of the small fields, lattices of the wide ones, both bitstream types; "
+        "oracle-only families: every table row (sampling frequency index x channel configuration, acmod x lfeon, bit rate codes, codec ids) "
+        "and field lattices; invalid field values (reserved indices, zero rates, wrong versions) and truncations as a malformed "
         "stream; every tests/data sample of a modelled format. non-trivial = the loader accepted the file and reported attributes, "
         "or rejected an invalid header; distinct by (format, parameters)")
 
@@ -400,9 +454,51 @@ def mpeg_domain():
                                 yield [vb, lb, prot, bri, sri, pad, 0, mode, 0]
 
 
+def mpeg_layout_case(ctx, F, p, id3s, junk, n, tag):
+    """ID3v2 tags (possibly stacked) and bytes without a sync in front of n frames: the same header attributes, sketchy iff fewer than
+    four frames follow, duration from the size after the first frame's offset"""
+    frame = mbuild(ctx, "mpeg", *p)
+    data = b"".join(id3v2(k) for k in id3s) + b"\x01" * junk + frame * n
+    spec = F.spec(p)
+    st, impl = run_impl(lambda: F.impl_info(data))
+    ctx.oracle_cases += 1
+    ctx.count("mpeg:" + tag)
+    ctx.case(("mpeg-layout", tuple(p), tuple(id3s), junk, n))
+    slug = {"fmt": "mpeg_layout", "params": p, "id3": id3s, "junk": junk, "frames": n}
+    if st != "ok":
+        ctx.violation("oracle", "mpeg: valid %d-frame stream behind ID3v2 / leading bytes not loaded (%s)" % (n, impl), dict(slug, **{"class": "mpeg-layout-rejected"}))
+        return False
+    ref = dict(spec)
+    del ref["frame_length"]
+    ref["sketchy"] = 0 if n >= 4 else 1
+    ref["length"] = fdiv(8 * n * len(frame), spec["bitrate"])
+    bad = cmp_dicts(impl, ref)
+    if bad:
+        ctx.violation("oracle", "mpeg: attributes differ behind ID3v2 / leading bytes: " + ", ".join(b.split(":")[0] for b in bad),
+                      dict(slug, **{"class": "mpeg-layout-mismatch", "detail": bad}))
+        return False
+    return True
+
+
+def run_mpeg_layout(ctx, n_random):
+    F = Mpeg()
+    dom = list(mpeg_domain())
+    rng = ctx.rng
+    for id3s in ([], [0], [10], [127], [128], [5000], [20, 300], [1, 2, 3]):
+        for junk in (0, 1, 100):
+            for n in (2, 3, 4, 5):
+                mpeg_layout_case(ctx, F, rng.choice(dom), id3s, junk, n, "layout")
+    for _ in range(n_random):
+        mpeg_layout_case(ctx, F, rng.choice(dom), rng.choice([[], [rng.randrange(2000)]]), rng.choice([0, 0, rng.randrange(3000)]), rng.choice([2, 3, 4, 7]), "layout-random")
+
+
 # ---- MPEG Layer III with Xing/Info(+LAME) and VBRI headers ---------------------------------------------
 VBR_KEYS = Mpeg.KEYS + ["kind", "frames", "bytes", "lame", "lame_delay", "lame_padding", "ln", "ld"]
 LAME_VS = b"LAME3.99r"
+# other 9-byte version strings: (an extended LAME header follows -- delay and padding count --, encoder_info or None = not judged)
+LAME_VARIANTS = {"LAME3.100": (1, "LAME 3.100.0+"), "LAME3.90a": (1, "LAME 3.90 (alpha)"), "LAME3.97b": (1, "LAME 3.97 (beta)"),
+                 "LAME3.96 ": (1, "LAME 3.96.0+"), "LAME3.98 ": (1, "LAME 3.98.0"), "LAME3.93.": (1, "LAME 3.93.0+"),
+                 "LAME3.89 ": (0, None), "LAME3.70r": (0, None)}
 
 
 def intround(x):
@@ -447,7 +543,8 @@ def vbr_case(ctx, kind, p, tagp, tag):
     opt = lambda v: "-" if v is None else zs(v)
     if kind == "xing":
         info, frames, nbytes, toc, scale, lame, vm, lp, delay, padding = tagp
-        frame = mbuild(ctx, "xing_frame", *(p + [info, opt(frames), opt(nbytes), toc, opt(scale), hx(LAME_VS) if lame else "-", vm, lp, delay, padding]))
+        vs = lame.encode("ascii") if isinstance(lame, str) else LAME_VS
+        frame = mbuild(ctx, "xing_frame", *(p + [info, opt(frames), opt(nbytes), toc, opt(scale), hx(vs) if lame else "-", vm, lp, delay, padding]))
     else:
         frame = mbuild(ctx, "vbri_frame", *(p + tagp))
     normal = mbuild(ctx, "mpeg", *p)
@@ -476,11 +573,12 @@ def vbr_case(ctx, kind, p, tagp, tag):
     spf = 1152 if spec["version10"] == 10 else 576
     ref = {"sample_rate": spec["sample_rate"], "channels": spec["channels"], "layer": 3, "version10": spec["version10"], "sketchy": 0}
     if kind == "xing":
+        has_ext, enc = LAME_VARIANTS[lame] if isinstance(lame, str) else (lame, "LAME 3.99.1+")
         if frames is not None:
-            samples = spf * frames - (delay + padding if lame else 0)
+            samples = spf * frames - (delay + padding if has_ext else 0)
             ref["length"] = fdiv(max(samples, 0), spec["sample_rate"])
-        if lame:
-            ref["encoder_info"] = "LAME 3.99.1+"
+        if lame and enc is not None:
+            ref["encoder_info"] = enc
     else:
         ref["length"] = fdiv(spf * tagp[3], spec["sample_rate"])
         ref["encoder_info"] = "FhG"
@@ -511,6 +609,9 @@ def run_vbr(ctx, n_random):
                     for sc in (None, 100):
                         for lame in (0, 1):
                             vbr_case(ctx, "xing", base, [info, fr, by, toc, sc, lame, 2, 160, 576, 1105], "flags")
+    for vs in sorted(LAME_VARIANTS):
+        for fr in (5, 1000, 2 ** 32 - 1):
+            vbr_case(ctx, "xing", rng.choice(l3), [rng.randrange(2), fr, rng.choice(u32), 1, 50, vs, 2, 160, rng.choice([0, 576, 4095]), rng.choice([0, 1105, 4095])], "lame-version")
     for d in (0, 1, 15, 16, 255, 256, 4094, 4095):
         for pd in (0, 1, 255, 256, 4095):
             vbr_case(ctx, "xing", base, [0, 5, 1000, 1, 50, 1, 3, 0, d, pd], "delay-padding")
@@ -794,7 +895,7 @@ class Ape(Generic):
 class Ofr(Generic):
     name = mfmt = "ofr"
     slug = "optimfrog-header"
-    fields = [("data_size", 5, 12), ("total", 48, 0), ("sample_type", 3, 0), ("channels", 8, 1), ("rate", 32, 0), ("encoder_id", 16, 0)]
+    fields = [("data_size", 5, 12), ("total", 48, 0), ("sample_type", 8, 0), ("channels", 8, 1), ("rate", 32, 0), ("encoder_id", 16, 0)]
     KEYS = ["channels", "sample_rate", "bits_per_sample", "ln", "ld", "encoder"]
 
     def fix(self, p):
@@ -824,7 +925,7 @@ class Ofr(Generic):
 
     def spec(self, p, file):
         ds, total, st, ch, rate, enc = p
-        return {"channels": ch, "sample_rate": rate, "bits_per_sample": OFR_BITS[st], "length": fdiv(total, ch * rate) if rate else 0.0,
+        return {"channels": ch, "sample_rate": rate, "bits_per_sample": OFR_BITS.get(st, -1), "length": fdiv(total, ch * rate) if rate else 0.0,
                 "encoder_info": self.enc((enc >> 4) + 4500) if ds >= 15 else ""}
 
 
@@ -1332,7 +1433,7 @@ class WavPackWalk(WavPack):
         return out
 
     def wrap(self, b, p):
-        return b + b"APETAGEX" + b"\x00" * 24
+        return b + b"\x00" * 40
 
     def spec(self, p, file):
         r = WavPack.spec(self, p[:12], file)
@@ -1925,6 +2026,30 @@ def invalid_cases(ctx):
                          {"fmt": F.name, "params": [str(x) for x in p]})
         if st == "ok":
             ctx.violation("oracle", "%s: invalid header value accepted" % F.name, {"class": F.slug + "-invalid-accepted", "fmt": F.name, "params": [str(x) for x in p], "invalid": True})
+    # version / marker bytes of the identification packets that the loaders check: patched in the built packet
+    patches = [("theora", 7, 2), ("theora", 7, 4), ("theora", 8, 1), ("theora", 8, 3), ("oggflac", 5, 0), ("oggflac", 5, 2), ("oggflac", 6, 1),
+               ("oggflac", 9, 0x46), ("oggflac", 12, 0x63), ("opus", 8, 0x10), ("opus", 8, 0xF0), ("opus", 8, 0x0F)]
+    for name, off, val in patches:
+        F = BYNAME[name]
+        p = F.params_random(rng)
+        b = bytearray(F.build(ctx, p))
+        ok_value = b[off] == val or (name == "opus" and val >> 4 == 0)
+        b[off] = val
+        b = bytes(b)
+        file = F.wrap(b, p)
+        st, impl = run_impl(lambda: F.impl(file))
+        data, extra = F.model_input(b, file, p)
+        mst, mv = mdecode(ctx, F.mfmt, data, extra)
+        ctx.corr_cases += 1
+        ctx.oracle_cases += 1
+        ctx.count(name + ":patched-version")
+        ctx.case((name, "patched", off, val))
+        if st != mst or (st == "raise" and impl != mv):
+            ctx.disagree("c05." + name, "byte %d := %d of %r: impl %s %s, model %s %s" % (off, val, p, st, impl if st == "raise" else "", mst, mv),
+                         {"fmt": name, "params": [str(x) for x in p], "patch": [off, val]})
+        if st == "ok" and not ok_value:
+            ctx.violation("oracle", "%s: unsupported version / marker accepted" % name,
+                          {"class": F.slug + "-invalid-accepted", "fmt": name, "params": [str(x) for x in p], "patch": [off, val], "invalid": True})
     # malformed Musepack SV8 packet streams (sizes smaller than the packet header, huge sizes, missing packets)
     for raw in (b"MPCK" + b"XX\x00" + b"\x00" * 20, b"MPCK" + b"XX\x02" + b"\x00" * 20,
                 b"MPCK" + b"SH" + b"\xff" * 8 + b"\x7f" + b"\x00" * 20, b"MPCK" + b"AP\x03", b"MPCK" + b"SE\x03",
@@ -2271,6 +2396,7 @@ def run_mpeg(ctx, stride=1):
 def run(ctx):
     run_mpeg(ctx)
     run_vbr(ctx, 400 if ctx.thorough else 80)
+    run_mpeg_layout(ctx, 400 if ctx.thorough else 60)
     run_generic(ctx, 120 if ctx.thorough else 25)
     run_adif(ctx, 2000 if ctx.thorough else 300)
     run_extra(ctx)
@@ -2286,6 +2412,7 @@ def search(ctx, broken):
     before = len(ctx.violations)
     run_mpeg(ctx)
     run_vbr(ctx, 600)
+    run_mpeg_layout(ctx, 300)
     run_generic(ctx, 300, stop_on_violation=True)
     run_adif(ctx, 3000)
     run_extra(ctx)
@@ -2312,13 +2439,19 @@ def replay(ctx, payload):
         return not mpeg_case(ctx, Mpeg(), p, "replay")
     if fm == "mpeg_hdr":
         return not mpeg_invalid_case(ctx, Mpeg(), p)
+    if fm == "mpeg_layout":
+        return not mpeg_layout_case(ctx, Mpeg(), p, d["id3"], d["junk"], d["frames"], "replay")
     if fm in ("mpeg_xing", "mpeg_vbri"):
-        return not vbr_case(ctx, fm[5:], p, [None if x == "-" else int(x) for x in d["tag"]], "replay")
+        return not vbr_case(ctx, fm[5:], p, [None if x == "-" else (x if isinstance(x, str) and x.startswith("LAME") else int(x)) for x in d["tag"]], "replay")
     if fm == "flac_write":
         return not flac_write_case(ctx, p)
     F = BYNAME[fm]
     if d.get("invalid"):
         b = F.build(ctx, p)
+        if d.get("patch"):
+            b = bytearray(b)
+            b[d["patch"][0]] = d["patch"][1]
+            b = bytes(b)
         st, _ = run_impl(lambda: F.impl(F.wrap(b, p)))
         return st == "ok"
     return not generic_case(ctx, F, p, "replay")
@@ -2330,4 +2463,5 @@ def coverage_extra(ctx):
                                "2 padding x 4 modes = 6048) is enumerated completely against the real loader; the theorems cover all field "
                                "values of the other formats",
             "families_with_theorem": FAMILIES_WITH_THEOREM,
-            "families_without_theorem": FAMILIES_WITHOUT_THEOREM}
+            "families_without_theorem": FAMILIES_WITHOUT_THEOREM,
+            "branch_audit": [{"parser": a, "driven": b, "not_driven": c} for a, b, c in BRANCH_AUDIT]}
